@@ -17,7 +17,14 @@ func TierOf(name string) Tier {
 	return Tier{Docs: 120, PerDoc: 30}
 }
 
+// SimpleAxes: the axes used by the families of properties that are about VALUES (conversions,
+// comparisons, arithmetic, strings, node functions), so that those checks depend as little as
+// possible on the axis machinery that C01 judges; two reverse axes are kept because "the first node in
+// document order" of a reverse-ordered node-set is part of C04 and C12.
+var SimpleAxes = []string{"child", "descendant", "attribute", "self", "parent", "descendant-or-self", "child", "ancestor", "preceding-sibling"}
+
 type evalPlan struct {
+	axes    []string
 	fam     string
 	doc     func(r *Rng) DocCfg
 	gen     func(g *ExprGen, d *Doc, r *Rng) (Expr, int) // expression and start node
@@ -56,6 +63,9 @@ func runEvalPlans(w *Writer, r *Rng, t Tier, plans []evalPlan) error {
 			env := GenEnv(cr, doc.Dump, plan.userFns)
 			g := &ExprGen{R: cr, Cfg: DefaultGenCfg(), Env: env}
 			g.Cfg.UserFns = plan.userFns
+			if plan.axes != nil {
+				g.Cfg.Axes = plan.axes
+			}
 			g.Cfg.Names, g.Cfg.Attrs = docNames(doc, cr)
 			g.D = doc.Dump
 			g.Start = anyNode(doc, cr)
@@ -163,13 +173,13 @@ func GenProperty(w *Writer, prop string, t Tier, seed uint64) error {
 		})
 	case "C04":
 		return runEvalPlans(w, r, t, []evalPlan{
-			{fam: "conv", doc: numericDoc, gen: func(g *ExprGen, d *Doc, r *Rng) (Expr, int) {
+			{axes: SimpleAxes, fam: "conv", doc: numericDoc, gen: func(g *ExprGen, d *Doc, r *Rng) (Expr, int) {
 				g.Cfg.Texts = DefaultTexts
 				inner := g.Any(1)
 				fn := Pick(r, []string{"string", "number", "boolean", "not", "string", "number"})
 				return Call{Base: Ctx{}, Name: fn, Args: []Expr{inner}}, g.Start
 			}},
-			{fam: "conv-var", doc: numericDoc, gen: func(g *ExprGen, d *Doc, r *Rng) (Expr, int) {
+			{axes: SimpleAxes, fam: "conv-var", doc: numericDoc, gen: func(g *ExprGen, d *Doc, r *Rng) (Expr, int) {
 				v := Pick(r, []string{"n", "m", "s", "b", "v"})
 				fn := Pick(r, []string{"string", "number", "boolean"})
 				var e Expr = Call{Base: Ctx{}, Name: fn, Args: []Expr{Var{Name: v}}}
@@ -178,7 +188,7 @@ func GenProperty(w *Writer, prop string, t Tier, seed uint64) error {
 				}
 				return e, 0
 			}},
-			{fam: "numfmt", doc: numericDoc, gen: func(g *ExprGen, d *Doc, r *Rng) (Expr, int) {
+			{axes: SimpleAxes, fam: "numfmt", doc: numericDoc, gen: func(g *ExprGen, d *Doc, r *Rng) (Expr, int) {
 				// number → text → number on doubles of every magnitude, and text → number on long numerals:
 				// validates the rational model of strconv.FormatFloat/ParseFloat
 				switch r.Intn(3) {
@@ -205,18 +215,18 @@ func GenProperty(w *Writer, prop string, t Tier, seed uint64) error {
 				}
 				return Call{Base: Ctx{}, Name: "number", Args: []Expr{Lit{S: lit}}}, 0
 			}},
-			{fam: "strval", doc: docDefault, gen: func(g *ExprGen, d *Doc, r *Rng) (Expr, int) {
+			{axes: SimpleAxes, fam: "strval", doc: docDefault, gen: func(g *ExprGen, d *Doc, r *Rng) (Expr, int) {
 				return Call{Base: Ctx{}, Name: "string"}, g.Start
 			}},
 		})
 	case "C05":
 		return runEvalPlans(w, r, t, []evalPlan{
-			{fam: "cmp", doc: numericDoc, gen: func(g *ExprGen, d *Doc, r *Rng) (Expr, int) {
+			{axes: SimpleAxes, fam: "cmp", doc: numericDoc, gen: func(g *ExprGen, d *Doc, r *Rng) (Expr, int) {
 				g.Cfg.Texts = DefaultTexts
 				op := Pick(r, []string{"eq", "ne", "lt", "le", "gt", "ge"})
 				return Bin{Op: op, L: g.Any(1), R: g.Any(1)}, g.Start
 			}},
-			{fam: "cmp-sets", doc: func(r *Rng) DocCfg {
+			{axes: SimpleAxes, fam: "cmp-sets", doc: func(r *Rng) DocCfg {
 				// few distinct values, so that node-sets overlap in some string-values and differ in others
 				c := DefaultDocCfg()
 				c.TextPool = []string{"1", "2", "1", "10", "2", " 1 ", "x", "1.0"}
@@ -244,7 +254,7 @@ func GenProperty(w *Writer, prop string, t Tier, seed uint64) error {
 				}
 				return Bin{Op: op, L: l, R: rr}, 0
 			}},
-			{fam: "cmp-var", doc: numericDoc, gen: func(g *ExprGen, d *Doc, r *Rng) (Expr, int) {
+			{axes: SimpleAxes, fam: "cmp-var", doc: numericDoc, gen: func(g *ExprGen, d *Doc, r *Rng) (Expr, int) {
 				op := Pick(r, []string{"eq", "ne", "lt", "le", "gt", "ge"})
 				vs := []string{"n", "m", "s", "b", "v", "e", "k", "t"}
 				return Bin{Op: op, L: Var{Name: Pick(r, vs)}, R: Var{Name: Pick(r, vs)}}, 0
@@ -252,10 +262,10 @@ func GenProperty(w *Writer, prop string, t Tier, seed uint64) error {
 		})
 	case "C06":
 		return runEvalPlans(w, r, t, []evalPlan{
-			{fam: "arith", doc: numericDoc, gen: func(g *ExprGen, d *Doc, r *Rng) (Expr, int) {
+			{axes: SimpleAxes, fam: "arith", doc: numericDoc, gen: func(g *ExprGen, d *Doc, r *Rng) (Expr, int) {
 				return g.Num(2), g.Start
 			}},
-			{fam: "arith-var", doc: numericDoc, gen: func(g *ExprGen, d *Doc, r *Rng) (Expr, int) {
+			{axes: SimpleAxes, fam: "arith-var", doc: numericDoc, gen: func(g *ExprGen, d *Doc, r *Rng) (Expr, int) {
 				a, b := Var{Name: "n"}, Var{Name: "m"}
 				switch r.Intn(8) {
 				case 0, 1, 2, 3, 4:
@@ -265,14 +275,14 @@ func GenProperty(w *Writer, prop string, t Tier, seed uint64) error {
 				}
 				return Call{Base: Ctx{}, Name: Pick(r, []string{"floor", "ceiling", "round"}), Args: []Expr{a}}, 0
 			}},
-			{fam: "sum", doc: numericDoc, gen: func(g *ExprGen, d *Doc, r *Rng) (Expr, int) {
-				g.Cfg.Axes = ForwardAxes
+			{axes: SimpleAxes, fam: "sum", doc: numericDoc, gen: func(g *ExprGen, d *Doc, r *Rng) (Expr, int) {
+				g.Cfg.Axes = forwardOnly(g.Cfg.Axes)
 				return Call{Base: Ctx{}, Name: Pick(r, []string{"sum", "count"}), Args: []Expr{g.forwardNodeSet(1)}}, 0
 			}},
 		})
 	case "C07":
 		return runEvalPlans(w, r, t, []evalPlan{
-			{fam: "strfn", doc: docDefault, gen: func(g *ExprGen, d *Doc, r *Rng) (Expr, int) {
+			{axes: SimpleAxes, fam: "strfn", doc: docDefault, gen: func(g *ExprGen, d *Doc, r *Rng) (Expr, int) {
 				g.Cfg.Texts = []string{"", "a", "abc", "12345", "é𝄞x", "a  b \t c", " a ", " x ", "--aaa--", "é", "1999/04/01", "/", "ab", "ba", " ", "ABC"}
 				g.Cfg.Numbers = []string{"0", "1", "2", "3", "1.5", "2.5", "0.5", "10", "100", "2.6"}
 				switch r.Intn(10) {
@@ -355,7 +365,7 @@ func GenProperty(w *Writer, prop string, t Tier, seed uint64) error {
 		})
 	case "C12":
 		return runEvalPlans(w, r, t, []evalPlan{
-			{fam: "nodefn", doc: func(r *Rng) DocCfg { c := DefaultDocCfg(); c.Lang = true; return c }, gen: func(g *ExprGen, d *Doc, r *Rng) (Expr, int) {
+			{axes: SimpleAxes, fam: "nodefn", doc: func(r *Rng) DocCfg { c := DefaultDocCfg(); c.Lang = true; return c }, gen: func(g *ExprGen, d *Doc, r *Rng) (Expr, int) {
 				switch r.Intn(8) {
 				case 0, 1, 2:
 					fn := Pick(r, []string{"name", "local-name", "namespace-uri"})
